@@ -782,6 +782,18 @@ func (d *Driver) check(e *mc.Env, s *mc.State) []mc.Finding {
 			wantRem = new(big.Int)
 		}
 		gotRem := pool2.RemainingReward.AmountOf(dn).BigInt()
+		// "rewards released for a span of blocks are reward-per-block times the span": what the pool still promises to
+		// release until its end height may not exceed what is left of the budget (else the last blocks cannot be paid)
+		if h := s.Ctx.BlockHeight(); !m.refunded && pool2.EndHeight > h {
+			from := h
+			if pool2.StartHeight > from {
+				from = pool2.StartHeight
+			}
+			sched := new(big.Int).Mul(pool2.RewardPerBlock.AmountOf(dn).BigInt(), big.NewInt(pool2.EndHeight-from))
+			if sched.Cmp(gotRem) > 0 {
+				fs = append(fs, mc.F("C06/scheduled-release-exceeds-remaining-budget", "denom %s: %s per block until the end height %d (from %d) is %s, the remaining budget is %s", dn, pool2.RewardPerBlock.AmountOf(dn), pool2.EndHeight, from, sched, gotRem))
+			}
+		}
 		if gotRem.Cmp(wantRem) != 0 {
 			fs = append(fs, mc.F("C06/budget-not-conserved", "denom %s: remaining %s, but funded %s - released %s (refunded=%v) = %s", dn, gotRem, m.funded[dn], m.released[dn], m.refunded, wantRem))
 		}
